@@ -802,3 +802,50 @@ def corpus_case(draw, max_extent=4, spacetime_ratio=2, static_only=True):
             mode = "spacetime"
     c["mode"] = mode
     return c
+
+
+# --------------------------------------------------------------------------
+# two flattenings on one tensor (C08: sets of partitionings are iterated in hash order)
+
+
+@st.composite
+def case_flat2(draw, max_extent=4):
+    """Z[subset] = A[4 ranks in drawn order] (* B[one rank])?; two pairs of A's ranks are flattened, each raw, below a
+    shape split or below an occupancy split (dynamic flattening)"""
+    rs = list(draw(st.permutations(["K", "M", "J", "N"])))
+    decl_a = list(draw(st.permutations(rs)))
+    pairs = [[rs[0], rs[1]], [rs[2], rs[3]]]
+    outv = draw(subset(rs))
+    outv = list(draw(st.permutations(outv))) if outv else []
+    facs = [{"t": "A", "idx": [plain(r.lower()) for r in decl_a]}]
+    decl = [["A", decl_a], ["Z", outv]]
+    if draw(st.booleans()):
+        r = draw(st.sampled_from(rs))
+        decl.insert(1, ["B", [r]])
+        facs.append({"t": "B", "idx": [plain(r.lower())]})
+    spec = {"decl": decl, "exprs": [{"out": ["Z", [plain(r.lower()) for r in outv]], "terms": [{"take": None, "factors": facs}]}],
+            "rank_order": {}, "loop_order": {}, "partitioning": {}, "spacetime": {}, "extra": {}}
+    rt = draw(runtime(spec, max_extent=max_extent))
+    parts, chains = [], []
+    for pair in pairs:
+        pair = list(draw(st.permutations(pair)))
+        names, pre = [], []
+        mode = draw(st.sampled_from(["raw", "raw", "shape", "occ"]))
+        which = draw(st.integers(0, 1))
+        for i, r in enumerate(pair):
+            if mode != "raw" and i == which:
+                d = "uniform_shape(%d)" % draw(st.integers(1, 3)) if mode == "shape" else "uniform_occupancy(A.%d)" % draw(st.integers(1, 3))
+                parts.append([r, [d]])
+                names.append(r + "0")
+                pre.append(r + "1")
+            else:
+                names.append(r)
+        parts.append(["(" + ", ".join(names) + ")", ["flatten()"]])
+        chains.append(pre + ["".join(names)])
+    if draw(st.booleans()):
+        parts = list(draw(st.permutations(parts)))
+    spec["partitioning"] = {"Z": parts}
+    spec["loop_order"] = {"Z": draw(interleave(chains))}
+    case = {"spec": spec, "family": "flat2", "lo_mode": "ordered"}
+    case.update(rt)
+    return case
